@@ -377,3 +377,21 @@ Fixpoint wf_from (used avail : list path) (ops : list commit) : bool :=
   end.
 
 Definition wf (ops : list commit) : bool := wf_from [] [] ops.
+
+(* ------------------------------------------------------------------------------------------ *)
+(* 5. the safety statement on states (no ghost)                                                 *)
+
+(* reachability computed on a tree itself: follow the references found in the files' contents *)
+Inductive tree_reach (t : tree) : path -> path -> Prop :=
+| tr_self : forall k, tree_reach t k k
+| tr_step : forall v k k' c, tree_reach t v k -> content_at t k = Some c -> In k' (refs c) -> tree_reach t v k'.
+
+(* After power loss in state s: if a pointer survives, its inode is fully flushed (it is some whole
+   version of the pointer, never a partial one), and every file reachable from it through the
+   surviving files' own contents survives too, with exactly the content running processes saw
+   under that name (so: not missing, not empty, not partial). *)
+Definition safe_state (s : fs) : Prop :=
+  forall i, entry (dur s) PTR = Some i ->
+    data (dur s) i = data (vol s) i
+    /\ forall r, In r (refs (data (dur s) i)) -> forall k, tree_reach (power_loss s) r k ->
+         exists c, content_at (power_loss s) k = Some c /\ content_at (vol s) k = Some c.
